@@ -335,7 +335,7 @@ let stops (r : string) : bool =
 let e2e_run (line : string) : string =
   let secs = split_on_string " | " line in
   let is_op sec = match fields sec with
-    | ("call" | "plaincall" | "typedcall" | "getinfo" | "getdescr" | "resolver-getinfo" | "resolve") :: _ -> true | _ -> false in
+    | ("call" | "slowcall" | "plaincall" | "typedcall" | "getinfo" | "getdescr" | "resolver-getinfo" | "resolve") :: _ -> true | _ -> false in
   let c = parse_svc_case (String.concat " | " (List.filter (fun sec -> not (is_op sec) && (match fields sec with "transport" :: _ -> false | _ -> true)) secs)) in
   let reg = (match c.reg with Some r -> r | None -> failwith "no svc") in
   let hs = handlers_of c in
@@ -373,7 +373,7 @@ let e2e_run (line : string) : string =
   List.iter (fun sec ->
       if not !stop then
         match fields sec with
-        | "call" :: flags :: m :: v :: nrecv :: _ ->
+        | ("call" | "slowcall") :: flags :: m :: v :: nrecv :: _ ->
           (match client_send (n_of_int (int_of_string flags)) (bytes_of_hex m) (parse_value_desc v) with
            | SRefused what -> out := ("send=refused:" ^ hex_of_bytes what) :: !out
            | SMarshalErr -> out := "send=marshal" :: !out
